@@ -50,6 +50,10 @@ func VerifC01_simple_handler() {
 	vSinkWhenFull() // the scheduling goroutine drains the feedback channel
 	vRunSpawned(1 + vChoose("which", H))
 	vReach("handler returned")
+	for i := 1; i <= H; i++ {
+		vRunSpawned(i) // the other handlers: the output is closed, each returns at once
+	}
+	vAssert(true, "C19: every handler returns once the output is closed")
 	vAssert(len(log) == 3*K, "C02: every received item leads to exactly one Handle call and one Release")
 	for k := 0; k < K; k++ {
 		if 3*k+2 < len(log) {
